@@ -55,6 +55,15 @@ ABS_FLOOR = 1e-6
 #   a reused calculator (SetRates called before with other rates) vs a fresh one: same arithmetic on the same inputs; measured
 #   differences 0 (bit-identical) on the unchanged tree  ->  1e-10 relative to max|G|
 HIST_RTOL = 1e-10
+#   convergence under mesh refinement: worst residual on the (Nmax+2)-mesh / worst residual on the Nmax-mesh, over the cases where the
+#   latter exceeds 1e-6 (unchanged tree 1525122, 2026-09-23, 190 cases 2-D 4->6, 3-D 2->4, 3->5): median 0.10-0.15, 90% 0.45, max 0.545
+#   (slowest cases converge algebraically, (Nmax/(Nmax+2))^2 = 0.44); a residual that stagnates does not come from the quadrature.
+#   RHO = 1.4 x the largest ratio seen
+RHO = 0.75
+#   sheared (non-reduced, noreduce=True) description vs the reduced description of the same crystal and rates, both on the refined
+#   mesh Nmax+2 = 6: worst-residual ratio measured 0.5 .. 6.6 (fcc, bcc x demo shears, 9 data sets; absolute values 1e-10 .. 5e-9, far
+#   below the 1e-6 floor, which is what decides) -> 4 x the largest ratio seen
+SHEAR_FACTOR = 25.0
 
 
 def pyrope():
@@ -154,11 +163,12 @@ def residuals(case, tab, pts):
 
 
 def conv_estimate(case, tab, g2):
-    """quadrature accuracy of the calculator measured by refining its own k-mesh"""
-    worst = 0.0
+    """quadrature accuracy of the calculator measured by refining its own k-mesh; also returns the refined values"""
+    worst = 0.0; tab2 = {}
     for (i, j, R), v in tab.items():
-        worst = max(worst, abs(v - float(g2(i, j, case.dx(i, j, R)))))
-    return worst * case.esc.max()
+        tab2[(i, j, R)] = float(g2(i, j, case.dx(i, j, R)))
+        worst = max(worst, abs(v - tab2[(i, j, R)]))
+    return worst * case.esc.max(), tab2
 
 
 def pair_checks(case, g, gscaled, lam, pts, rng, npairs):
@@ -259,6 +269,80 @@ def lattice_index(case):
     return g
 
 
+def shear_crystal(crys, U):
+    """the same crystal described with the primitive basis lattice.U (U unimodular), noreduce=True; atom order is kept"""
+    from onsager import crystal
+    Ui = np.rint(np.linalg.inv(U)).astype(int)
+    basis = [[crystal.incell(Ui @ u) for u in atoms] for atoms in crys.basis]
+    return crystal.Crystal(crys.lattice @ U, basis, chemistry=crys.chemistry, noreduce=True)
+
+
+def random_shear(rng, dim):
+    U = np.eye(dim, dtype=int)
+    for _ in range(rng.choice([1, 1, 2])):
+        a, b = rng.sample(range(dim), 2)
+        E = np.eye(dim, dtype=int); E[a, b] = rng.choice([-1, 1, 1, 2] if dim == 2 else [-1, 1])
+        U = U @ E
+    return U
+
+
+def group_is_subgroup(cs, crys):
+    """Crystal(..., noreduce=True) on a skewed cell searches rotations with lattice entries in {-1,0,1} only (known finding
+    c18-noreduce-skewed): the operations found may not form a group.  Accept the sheared description only when its rotations
+    are closed under multiplication and all belong to the reduced description's point group."""
+    rs = [np.round(g.cartrot, 6) for g in cs.G]
+    def has(M, L): return any(np.allclose(M, X, atol=1e-5) for X in L)
+    full = [np.round(g.cartrot, 6) for g in crys.G]
+    return all(has(a, full) for a in rs) and all(has(a @ b, rs) for a in rs for b in rs)
+
+
+SHEAR2 = ["square", "rect", "tria", "honeycomb", "sq2w"]
+SHEAR3 = ["fcc", "bcc", "sc", "tet", "ortho", "diamond", "b2", "fcc", "bcc"]
+
+
+FIXED_SHEARS = [("fcc", [[1, 1, 0], [0, 1, 0], [0, 0, 1]]), ("bcc", [[1, 0, 0], [0, 1, 0], [-1, 0, 1]]), ("fcc", [[1, 1, 1], [0, 1, 1], [0, 0, 1]])]
+
+
+def gen_sheared_pair(rng, nprng, dim, Nmax, fixed=None):
+    """(reduced case, sheared case, U) with identical physics, or a string naming why not"""
+    if fixed is not None:
+        nm, U = fixed[0], np.array(fixed[1])
+    else:
+        nm = rng.choice(SHEAR2 if dim == 2 else SHEAR3)
+        U = random_shear(rng, dim)
+    crys, chem = gen.named(nm)
+    try:
+        cs = shear_crystal(crys, U)
+    except Exception:
+        return "shear-construct-failed"
+    if len(cs.basis[chem]) != len(crys.basis[chem]) or not group_is_subgroup(cs, crys):
+        return "sheared-group-not-closed(c18-noreduce-skewed)"
+    sh = gen.shells(crys, chem)
+    cut = sh[rng.choice([0, 1, 1])] + 1e-4
+    sl = crys.sitelist(chem); jn = crys.jumpnetwork(chem, cut)
+    N = len(crys.basis[chem])
+    rho = np.ones(N) / N
+    Dt = gen.exact_unitcell_D(N, jn, rho, [[1.0] * len(t) for t in jn], dim)
+    if np.linalg.eigvalsh(0.5 * (Dt + Dt.T)).min() < 1e-6: return "nonpercolating"
+    bE = nprng.uniform(0, 2, len(sl))
+    data = (nprng.uniform(.5, 2, len(sl)).tolist(), bE.tolist(), nprng.uniform(.5, 2, len(jn)).tolist(), (bE.max() + nprng.uniform(.2, 2, len(jn))).tolist())
+    # the same physics in the sheared description: data follow the site / the jump (fewer operations found -> finer classes)
+    inv = {i: w for w, sites in enumerate(sl) for i in sites}
+    sl2 = cs.sitelist(chem); jn2 = cs.jumpnetwork(chem, cut)
+    if sum(len(t) for t in jn2) != sum(len(t) for t in jn): return "sheared-jumpnetwork-differs"
+    pre2 = [data[0][inv[w[0]]] for w in sl2]; bE2 = [data[1][inv[w[0]]] for w in sl2]
+    preT2, bET2 = [], []
+    for t in jn2:
+        (i, j), dx = t[0]
+        hit = [c for c, jl in enumerate(jn) for (ik, jk), dxk in jl if ik == i and jk == j and np.allclose(dxk, dx, atol=1e-7)]
+        if len(hit) != 1: return "sheared-jumpnetwork-differs"
+        preT2.append(data[2][hit[0]]); bET2.append(data[3][hit[0]])
+    a = Case(nm, crys, chem, cut, sl, jn, data, Nmax)
+    b = Case(nm + "~sheared", cs, chem, cut, sl2, jn2, (pre2, bE2, preT2, bET2), Nmax)
+    if lattice_index(a) not in (None, 1): return "sublattice-network"
+    return a, b, U
+
+
 HIST2 = ["square", "rect", "tria", "honeycomb", "sq2w"]
 HIST3 = ["sc", "fcc", "bcc", "tet", "ortho", "hcp", "diamond", "b2"]
 
@@ -323,7 +407,8 @@ def evaluate(case, rng, nrand=6, npairs=8, history=0, nprng=None):
     pts = patch(case, g, rng, nrand)
     tab = table_for(case, g, pts)
     res = residuals(case, tab, pts)
-    conv = conv_estimate(case, tab, g2)
+    conv, tab2 = conv_estimate(case, tab, g2)
+    res2 = residuals(case, tab2, pts)          # the same equations on the refined mesh: the residual must converge to zero
     pairs = pair_checks(case, g, gs, lam, pts, rng, npairs)
     gmax = max(abs(v) for v in tab.values())
     D = case.exactD()
@@ -334,15 +419,15 @@ def evaluate(case, rng, nrand=6, npairs=8, history=0, nprng=None):
         q = [max(1, int(p_) // 4) for p_ in g.kptgrid]
         keys.append((0, case.N - 1, tuple(q)))
         hist = max(abs(float(g(i, j, case.dx(i, j, R))) - float(fresh(i, j, case.dx(i, j, R)))) for (i, j, R) in keys)
-    return dict(g=g, pts=pts, tab=tab, res=res, conv=conv, pairs=pairs, gmax=gmax, D=D, far=far, lam=lam, hist=hist,
+    return dict(g=g, g2=g2, pts=pts, tab=tab, res=res, res2=res2, conv=conv, pairs=pairs, gmax=gmax, D=D, far=far, lam=lam, hist=hist,
                 Derr=float(np.abs(g.D - D).max() / np.abs(D).max()))
 
 
 def run(ck):
     ck.rule = ("crystal pool (2-D and 3-D, named + random crystal systems, 1-3 Wyckoff sets, plus the two-network pyrope Mg sublattice) x "
-               "percolating cutoff x random energies/prefactors (half of the multi-jump-type cases and a dedicated tier of named lattices with >= 2 jump types use ONE calculator object reused across 1-3 earlier, non-uniformly different rate sets, compared with a fresh calculator) x patch of endpoints (all site pairs at the origin, unit cells, diagonal, "
+               "percolating cutoff x random energies/prefactors (half of the multi-jump-type cases and a dedicated tier of named lattices with >= 2 jump types use ONE calculator object reused across 1-3 earlier, non-uniformly different rate sets, compared with a fresh calculator; a sheared tier describes named crystals with a non-reduced primitive basis = lattice x random unimodular shear, noreduce=True, and compares with the reduced description) x patch of endpoints (all site pairs at the origin, unit cells, diagonal, "
                "random cells up to a quarter of the k-mesh period); per case: residual of the diffusion equation at every patch point "
-               "(numpy and exact in Coq), swap / random space-group image / rate-scaling pairs, 3-D far field; distinct = distinct "
+               "(numpy and exact in Coq) and its convergence under k-mesh refinement, swap / random space-group image / rate-scaling pairs, 3-D far field; distinct = distinct "
                "(crystal, cutoff, data); non-trivial = more than one patch point")
     ck.trusted += ["harness/c10.py: jumps (target, cell shift, symmetrised rate) and escape rates built from the implementation's "
                    "jumpnetwork/sitelist; quadrature accuracy measured by refining the calculator's own k-mesh (Nmax+2)",
@@ -354,11 +439,24 @@ def run(ck):
     # history tier: one calculator object reused across several rate sets (named lattices with >= 2 jump types)
     plan += [("hist2", 4)] * ck.n(5, 30) + [("hist3", 2)] * ck.n(3, 16)
     terms, meta = [], []
-    stats = {"ratio_res_conv": [], "K_far": [], "pair_rel": [], "conv": [], "res": [], "history_rel": []}
+    stats = {"ratio_res_conv": [], "K_far": [], "pair_rel": [], "conv": [], "res": [], "history_rel": [], "ratio_refined": [], "ratio_sheared": [], "cross_description": []}
     skipped = {"no-network": 0, "sublattice-network": 0}
     nsample = 0
+    # sheared tier: a named crystal in its reduced description and in a non-reduced (unimodular shear, noreduce=True) description
+    plan += [("shear2", 4)] * ck.n(3, 16) + [("shear3", 4)] * ck.n(3, 12)
+    work = []
     for spec, Nmax in plan:
         nr = ck.nprng(rng.randrange(1 << 30))
+        if spec in ("shear2", "shear3"):
+            nfixed = sum(1 for w_ in work if w_[4] is not None and w_[4][0] == "shear" and w_[0].crys.dim == 3)
+            fixed = FIXED_SHEARS[nfixed] if (spec == "shear3" and nfixed < ck.n(2, 3) and skipped.get("fixed-shear-tried", 0) < 3) else None
+            if fixed is not None: skipped["fixed-shear-tried"] = skipped.get("fixed-shear-tried", 0) + 1
+            pr = gen_sheared_pair(rng, nr, 2 if spec == "shear2" else 3, Nmax, fixed=fixed)
+            if isinstance(pr, str):
+                skipped[pr] = skipped.get(pr, 0) + 1; continue
+            work.append((pr[0], 0, Nmax, nr, ("shear-ref", None)))
+            work.append((pr[1], 0, Nmax, nr, ("shear", pr[2])))
+            continue
         if spec in ("hist2", "hist3"):
             case = gen_case(rng, nr, 2 if spec == "hist2" else 3, Nmax, label="history")
             history = rng.choice([1, 2, 3])
@@ -372,6 +470,9 @@ def run(ck):
             # the jump vectors generate only a sublattice: the infinite network is disconnected although the unit-cell graph is
             # connected; omega(k) is singular at a zone-boundary k and SetRates raises LinAlgError -- outside the calculator's domain
             skipped["sublattice-network"] += 1; continue
+        work.append((case, history, Nmax, nr, None))
+    shear_ref = None
+    for case, history, Nmax, nr, tag in work:
         rep = {"crystal": repr(case.crys), "chem": case.chem, "cutoff": case.cut, "Nmax": Nmax,
                "pre": case.data[0], "bE": case.data[1], "preT": case.data[2], "bET": case.data[3]}
         try:
@@ -403,6 +504,36 @@ def run(ck):
             ck.violation("diffusion equation residual %.3g at (i,j,R)=%s exceeds max(1e-6, %g x measured quadrature accuracy %.3g)"
                          % (worst, ev["pts"][k], RES_FACTOR, ev["conv"]), {**rep, "point": list(ev["pts"][k]), "residual": worst, "tolerance": tol},
                          key="c10-equation")
+        # convergence: the same equations on the refined mesh
+        worst2 = float(np.abs(ev["res2"]).max())
+        if worst > ABS_FLOOR: stats["ratio_refined"].append(worst2 / worst)
+        if worst2 > max(ABS_FLOOR, RHO * worst):
+            k = int(np.argmax(np.abs(ev["res2"])))
+            ck.violation("diffusion equation residual does not converge under k-mesh refinement: %.3g at Nmax=%d, %.3g at Nmax=%d (point %s; "
+                         "quadrature error decays at least like (Nmax/(Nmax+2))^2, limit %.2f)" % (worst, Nmax, worst2, Nmax + 2, ev["pts"][k], RHO),
+                         {**rep, "point": list(ev["pts"][k]), "residual_Nmax": worst, "residual_Nmax+2": worst2}, key="c10-equation-not-converging")
+        if tag is not None and tag[0] == "shear-ref":
+            shear_ref = (case, ev, worst, worst2)
+        if tag is not None and tag[0] == "shear" and shear_ref is not None:
+            rcase, rev, rworst, rworst2 = shear_ref
+            rep["shear"] = np.asarray(tag[1]).tolist(); rep["reduced_crystal"] = repr(rcase.crys)
+            # (a) same crystal, same rates, REFINED mesh (Nmax+2): residual of the sheared description vs that of the reduced one.
+            #     (at Nmax itself a skewed cell can have a coarse, anisotropic mesh: bcc x shear gives 3e-5 at Nmax 4 and 1e-9 at Nmax 6)
+            stats["ratio_sheared"].append(worst2 / max(rworst2, 1e-300))
+            if worst2 > max(ABS_FLOOR, SHEAR_FACTOR * rworst2):
+                ck.violation("non-reduced description (lattice x %s, noreduce): diffusion equation residual %.3g at Nmax=%d, reduced description of "
+                             "the same crystal and rates %.3g" % (np.asarray(tag[1]).tolist(), worst2, Nmax + 2, rworst2), rep, key="c10-sheared-description")
+            # (b) the Green function itself: same Cartesian separation, same sites
+            dmax = 0.0
+            for (i, j, R) in rev["pts"]:
+                x = rcase.dx(i, j, R)
+                dmax = max(dmax, abs(float(rev["g2"](i, j, x)) - float(ev["g2"](i, j, x))))
+            tolx = max(ABS_FLOOR, RES_FACTOR * (ev["conv"] + rev["conv"])) / case.esc.max()
+            stats["cross_description"].append(dmax * case.esc.max())
+            ck.case(key=(case.label, round(case.cut, 5), case.data[0], "cross", np.asarray(tag[1]).tolist()), nontrivial=True, kind="cross-description:" + kind)
+            if dmax > tolx:
+                ck.violation("Green function of the sheared description differs from the reduced description by %.3g (tolerance %.3g)" % (dmax, tolx),
+                             rep, key="c10-sheared-description")
         if ev["Derr"] > 1e-8:
             ck.violation("GFCrystalcalc.D differs from the exact diffusivity by %.3g (rel)" % ev["Derr"], rep, key="c10-D")
         tolpair = max(PAIR_RTOL * ev["gmax"], 1e-300)
@@ -446,7 +577,7 @@ def run(ck):
         if nf: ck.violation("Coq evaluator: %d swap/group/scaling pairs differ by more than the tolerance" % nf, m["rep"], key="c10-pairs")
     def q(v): return {"n": len(v), "median": float(np.median(v)) if v else None, "max": float(np.max(v)) if v else None}
     ck.extra["measured"] = {k: q(v) for k, v in stats.items()}
-    ck.extra["calibration"] = {"RES_FACTOR": RES_FACTOR, "K_CAP": K_CAP, "PAIR_RTOL": PAIR_RTOL, "ABS_FLOOR": ABS_FLOOR,
+    ck.extra["calibration"] = {"RHO": RHO, "SHEAR_FACTOR": SHEAR_FACTOR, "HIST_RTOL": HIST_RTOL, "RES_FACTOR": RES_FACTOR, "K_CAP": K_CAP, "PAIR_RTOL": PAIR_RTOL, "ABS_FLOOR": ABS_FLOOR,
                                "rule": "residual tolerance = max(1e-6, RES_FACTOR x quadrature accuracy measured per case by k-mesh refinement); "
                                        "constants calibrated on the unchanged tree 2026-09-22 (see harness/c10.py CALIBRATION)"}
     ck.extra["coq_evaluator_cases"] = len(res)
